@@ -124,6 +124,32 @@ def release_slice(cases, rng, frac, mode_ops=(), plain_ops=None):
                         profile='release', note=c.note, always_oracle=c.always_oracle))
     return out
 
+def o_cli_seq(ncmds):
+    """oracle of the harness operation cli_seq: the combined run printed one document per command, each equal to the document
+    printed when the command runs alone"""
+    def orc(ia):
+        if ia.kind != 'ok' or not isinstance(ia.val, list): return 'several commands in one configuration: the binary failed (%s)' % ia.raw[:120]
+        if ia.val[0] != ncmds: return 'several commands in one configuration: %s documents printed for %d commands' % (ia.val[0], ncmds)
+        bad = [i for i, b in enumerate(ia.val[1:]) if b is not True]
+        if bad: return 'several commands in one configuration: the answer to command number %s differs from the answer the same command gives alone' % bad
+        return None
+    return orc
+
+def parse_poly_str(txt):
+    """inverse of the library's Display for polynomials: 'X^2 + (-3)X + 5' -> [5, -3, 1]; '0' -> []"""
+    import re as _re
+    txt = txt.strip()
+    if txt == '0': return []
+    co = {}
+    for term in txt.split(' + '):
+        m = _re.fullmatch(r'(\(-?\d+\)|\d+)?(X(\^(\d+))?)?', term)
+        if not m or term == '': raise ValueError('unparsable term %r in %r' % (term, txt))
+        c = m.group(1); c = 1 if c is None else int(c.strip('()'))
+        d = 0 if m.group(2) is None else 1 if m.group(4) is None else int(m.group(4))
+        if d in co: raise ValueError('degree %d twice in %r' % (d, txt))
+        co[d] = c
+    return [co.get(i, 0) for i in range(max(co) + 1)]
+
 def default_compare(ia, ma):
     if ia.key() != ma.key():
         return 'implementation %r vs model %r' % (ia.raw[:200], ma.raw[:200])
